@@ -955,6 +955,7 @@ func (fx *fnExec) mapUpdate(in *ssa.MapUpdate, st *State) {
 	hs := ArraySort(IntSort, ArraySort(ks, BoolSort))
 	h := st.heapGet(hk, hs)
 	st.heapSet(hk, Store(h, m.C[0], Store(Select(h, m.C[0]), key, True)))
+	fx.ex.mapLenStep(st, mt, Select(h, m.C[0]), Store(Select(h, m.C[0]), key, True), key, true)
 	for k, s := range vs {
 		kk := mapValKey(mt, k)
 		srt := ArraySort(IntSort, ArraySort(ks, s))
